@@ -100,6 +100,12 @@ func (f *Frame) unmatchedAsserts() error {
 			return fmt.Errorf("assert %s: the body of %s never calls %q (or has no such call site)", clauseLabel(cl), fnDisplayName(f.fn), cl.At)
 		}
 	}
+	// a where-defined postcondition that applies at no return at all would be vacuously true as well
+	for _, cl := range f.con.Ensures {
+		if strings.Contains(cl.Label, "where-defined") && f.c.whereDefinedHit[cl] == 0 {
+			return fmt.Errorf("ensures %s: applies at no return of %s (a local or call it mentions does not exist)", clauseLabel(cl), fnDisplayName(f.fn))
+		}
+	}
 	return nil
 }
 
@@ -129,6 +135,16 @@ func dynCallName(cc *ssa.CallCommon) string {
 	case *ssa.Field:
 		if st, ok := v.X.Type().Underlying().(*types.Struct); ok && v.Field < st.NumFields() {
 			return st.Field(v.Field).Name()
+		}
+	}
+	// a local variable holding the function value (`fn := table[k]; fn(x)`): the name the source gives it
+	if refs := cc.Value.Referrers(); refs != nil {
+		for _, r := range *refs {
+			if dr, ok := r.(*ssa.DebugRef); ok && !dr.IsAddr {
+				if o, ok := dr.Object().(*types.Var); ok && !o.IsField() && o.Parent() != nil && o.Parent() != o.Pkg().Scope() {
+					return o.Name()
+				}
+			}
 		}
 	}
 	return ""
